@@ -10,6 +10,7 @@ import (
 	"hash/fnv"
 	"os"
 	"path/filepath"
+	"runtime"
 	"runtime/debug"
 	"sort"
 	"strconv"
@@ -315,15 +316,26 @@ type Env struct {
 	// zone of that name and offset (the name may coincide with a tz-database name or abbreviation), otherwise a
 	// tz-database name.
 	Local string `json:",omitempty"`
+	// Procs is GOMAXPROCS during the case (0 = the process's own): code that splits work over "as many workers as there are
+	// processors" must give the same result for every number of them.
+	Procs int `json:",omitempty"`
 }
 
 var origLocal = time.Local
+var origProcs = runtime.GOMAXPROCS(0)
 
 // GetEnv makes every type embedding Env satisfy the interface Run looks for.
 func (e Env) GetEnv() Env { return e }
 
 // Apply installs the environment (and restores the original one for an empty Env).
 func (e Env) Apply() {
+	want := origProcs
+	if e.Procs > 0 {
+		want = e.Procs
+	}
+	if runtime.GOMAXPROCS(0) != want {
+		runtime.GOMAXPROCS(want)
+	}
 	switch {
 	case e.Local == "":
 		time.Local = origLocal
@@ -373,6 +385,9 @@ func Try[C any](r *Recorder, c C, check func(C) error) string {
 		e.Apply()
 		if e.Local != "" {
 			r.Class("env:process-time-zone-changed")
+		}
+		if e.Procs > 0 {
+			r.Class("env:GOMAXPROCS-changed")
 		}
 	}
 	SaveCurrent(r, c)
